@@ -1,0 +1,56 @@
+//go:build verif
+
+// Contracts for GoVC (comments only; see /verif/DESIGN.md).
+
+package defs
+
+// Struct tags (resolver.go). The frugal tag takes precedence over the thrift tag; of a thrift tag
+// the first element (the field name) is dropped; every element is trimmed.
+
+//@ func trimSpaces(ss []string) (r []string)
+//@   modifies ss[0:len(ss)]
+//@   ensures same(r, ss)
+//@   ensures c12_trim: forall j int :: {r[j]} 0 <= j && j < len(ss) ==> same(r[j], trimOf(old(ss[j])))
+//@   loop 0 invariant forall j int :: {ss[j]} 0 <= j && j <= rangeindex ==> same(ss[j], trimOf(old(ss[j])))
+//@   loop 0 invariant forall j int :: {ss[j]} rangeindex < j && j < len(ss) ==> same(ss[j], old(ss[j]))
+
+//@ func lookupStructTag(tag reflect.StructTag) (r []string, ok bool)
+//@   modifies $brk
+//@   ensures c12_found: ok <==> (tagHas(tag, "frugal") || tagHas(tag, "thrift"))
+//@   ensures c12_frugal: tagHas(tag, "frugal") ==> len(r) == splitN(tagVal(tag, "frugal")) && (forall j int :: {r[j]} {splitPart(tagVal(tag, "frugal"), j)} 0 <= j && j < len(r) ==> same(r[j], trimOf(splitPart(tagVal(tag, "frugal"), j))))
+//@   ensures c12_thrift: !tagHas(tag, "frugal") && tagHas(tag, "thrift") ==> len(r) == splitN(tagVal(tag, "thrift")) - 1 && (forall j int :: {r[j]} {splitPart(tagVal(tag, "thrift"), j + 1)} 0 <= j && j < len(r) ==> same(r[j], trimOf(splitPart(tagVal(tag, "thrift"), j + 1))))
+//@   ensures !ok ==> len(r) == 0
+//@   ensures old($brk) <= $brk
+
+// DoResolveFields, what is proved of its code (its callers use the assumed contract in
+// /verif/trusted/deps.spec): the field loop appends exactly one entry for every struct field that
+// is exported, not embedded and carries a frugal or thrift tag - and for no other -, with the
+// offset of that field, the id parsed from the first tag element, the requiredness named by the
+// second (default when omitted) and the type parsed from the third (empty annotation when
+// omitted). The final sort by id is sort.Slice (A-STD).
+//@ spec rec func hasTag(vt reflect.Type, i Int) bool = tagHas(sfTag(vt, i), "frugal") || tagHas(sfTag(vt, i), "thrift")
+//@ spec rec func elig(vt reflect.Type, i Int) bool = !sfAnon(vt, i) && sfExported(vt, i) && hasTag(vt, i)
+//@ spec rec func tagN(tag string) Int = tagHas(tag, "frugal") ? splitN(tagVal(tag, "frugal")) : splitN(tagVal(tag, "thrift")) - 1
+//@ spec rec func tagP(tag string, j Int) string = tagHas(tag, "frugal") ? trimOf(splitPart(tagVal(tag, "frugal"), j)) : trimOf(splitPart(tagVal(tag, "thrift"), j + 1))
+//@ spec func specWord(tag string) Int = tagN(tag) < 2 ? Default : (tagP(tag, 1) == "default" ? Default : (tagP(tag, 1) == "required" ? Required : Optional))
+//@ spec rec func typeWord(tag string) string = tagN(tag) < 3 ? "" : tagP(tag, 2)
+//@ spec func entryOf(f *Field, vt reflect.Type, i Int) bool = f.F == sfOffset(vt, i) && f.ID == pu16Val(tagP(sfTag(vt, i), 0)) && f.Spec == specWord(sfTag(vt, i))
+//@     && f.Type == parsedType(sfType(vt, i), typeWord(sfTag(vt, i)))
+// $src[k]: index of the struct field the k-th entry stems from; $dst[i]: position of field i's entry
+//@ const ghost $src = (Array Int Int)
+//@ const ghost $dst = (Array Int Int)
+//@ func DoResolveFields(vt reflect.Type) (ret []Field, err error)
+//@   requires vt != nil && rtKind(vt) == reflect.Struct
+//@   modifies M, $brk, $maps, $src, $dst
+//@   ensures old($brk) <= $brk
+//@   after ParseType ghost $src = store($src, len(ret), i)
+//@   after ParseType ghost $dst = store($dst, i, len(ret))
+//@   loop 0 invariant a: 0 <= i && i <= rtNumField(vt)
+//@   loop 0 invariant b: cap(ret) == 0 || old($brk) <= ret.ptr
+//@   loop 0 invariant c: old($brk) <= $brk
+//@   loop 0 invariant c12_sound: forall k int :: {ret[k]} {$src[k]} 0 <= k && k < len(ret) ==> 0 <= $src[k] && $src[k] < i && elig(vt, $src[k])
+//@   loop 0 invariant c12_offset: forall k int :: {ret[k]} {$src[k]} 0 <= k && k < len(ret) ==> ret[k].F == sfOffset(vt, $src[k])
+//@   loop 0 invariant c12_id: forall k int :: {ret[k]} {$src[k]} 0 <= k && k < len(ret) ==> ret[k].ID == pu16Val(tagP(sfTag(vt, $src[k]), 0))
+//@   loop 0 invariant c12_spec: forall k int :: {ret[k]} {$src[k]} 0 <= k && k < len(ret) ==> ret[k].Spec == specWord(sfTag(vt, $src[k]))
+//@   loop 0 invariant c12_type: forall k int :: {ret[k]} {$src[k]} 0 <= k && k < len(ret) ==> ret[k].Type == parsedType(sfType(vt, $src[k]), typeWord(sfTag(vt, $src[k])))
+//@   loop 0 invariant c12_complete: forall i0 int :: {$dst[i0]} 0 <= i0 && i0 < i && elig(vt, i0) ==> 0 <= $dst[i0] && $dst[i0] < len(ret) && $src[$dst[i0]] == i0
